@@ -416,6 +416,37 @@ Section Equiv.
     destruct P as [-> Ht]. destruct (truth I v'); [split; [reflexivity|exact Ht]|exact Logic.I].
   Qed.
 
+  Lemma find_case_rn b v : find_case I (map (rn_stmt r) b) v = option_map (option_map (map (rn_stmt r))) (find_case I b v).
+  Proof.
+    induction b as [|x b IH]; [reflexivity|]. cbn [map].
+    destruct x; cbn [rn_stmt find_case]; try exact IH.
+    destruct ws as [|w cw]; [exact IH|]. destruct (String.eqb w "SCase"); [|exact IH].
+    destruct (case_match I cw v) as [[|]|]; [reflexivity|exact IH|reflexivity].
+  Qed.
+
+  Lemma find_default_rn b : find_default (map (rn_stmt r) b) = option_map (map (rn_stmt r)) (find_default b).
+  Proof.
+    induction b as [|x b IH]; [reflexivity|]. cbn [map].
+    destruct x; cbn [rn_stmt find_default]; try exact IH.
+    destruct ws as [|w [|w2 l]]; try exact IH. destruct (String.eqb w "SDefault"); [reflexivity|exact IH].
+  Qed.
+
+  Lemma find_case_suffix (P : stmt -> Prop) b v r0 : find_case I b v = Some (Some r0) -> Forall P b -> Forall P r0.
+  Proof.
+    induction b as [|x b IH]; intros H F; [discriminate|]. inversion F as [|? ? Px Fb]; subst.
+    destruct x; cbn [find_case] in H; try (apply IH; assumption).
+    destruct ws as [|w cw]; [apply IH; assumption|]. destruct (String.eqb w "SCase"); [|apply IH; assumption].
+    destruct (case_match I cw v) as [[|]|]; [inversion H; subst; exact Fb|apply IH; assumption|discriminate].
+  Qed.
+
+  Lemma find_default_suffix (P : stmt -> Prop) b r0 : find_default b = Some r0 -> Forall P b -> Forall P r0.
+  Proof.
+    induction b as [|x b IH]; intros H F; [discriminate|]. inversion F as [|? ? Px Fb]; subst.
+    destruct x; cbn [find_default] in H; try (apply IH; assumption).
+    destruct ws as [|w [|w2 l]]; try (apply IH; assumption).
+    destruct (String.eqb w "SDefault"); [inversion H; subst; exact Fb|apply IH; assumption].
+  Qed.
+
   Section SLevel.
     Variable exf : stmt -> ST -> option (outcome (V := V) * ST).
     Variable fuel : nat.
@@ -503,8 +534,29 @@ Section Equiv.
         + apply cov_some; assumption.
         + intros a Ha. destruct Ha as [Ha|[]]. discriminate.
         + apply cov_flat. assumption.
-      - exact Logic.I.
-      - destruct ws as [|w [|w2 l]]; try exact Logic.I.
+      - (* SSwitch *) cov. match goal with H : covered r (flat_map enc_stmt _) |- _ => apply cov_flat in H; rename H into Cb end.
+        pose proof (ev_rel fuel c s s' ltac:(assumption) Hs) as P.
+        destruct (ev I fuel c s) as [[v t]|], (ev I fuel (rn r c) s') as [[v' t']|]; cbn in P; try contradiction; [|exact Logic.I].
+        destruct P as [-> Ht]. rewrite find_case_rn.
+        destruct (find_case I b v') as [entry|] eqn:FC; [|exact Logic.I]. cbn [option_map].
+        assert (Q : match (match entry with Some r0 => Some r0 | None => find_default b end),
+                          (match option_map (map (rn_stmt r)) entry with Some r0 => Some r0 | None => find_default (map (rn_stmt r) b) end) with
+                    | Some x, Some y => y = map (rn_stmt r) x /\ Forall (fun z => covered r (enc_stmt z)) x
+                    | None, None => True
+                    | _, _ => False
+                    end).
+        { destruct entry as [r0|]; cbn [option_map].
+          - split; [reflexivity|]. eapply find_case_suffix; [exact FC|exact Cb].
+          - rewrite find_default_rn. destruct (find_default b) as [r0|] eqn:D; cbn [option_map]; [|exact Logic.I].
+            split; [reflexivity|]. eapply find_default_suffix; [exact D|exact Cb]. }
+        destruct (match entry with Some r0 => Some r0 | None => find_default b end) as [x|],
+                 (match option_map (map (rn_stmt r)) entry with Some r0 => Some r0 | None => find_default (map (rn_stmt r) b) end) as [y|];
+          try contradiction; [|split; [reflexivity|exact Ht]].
+        destruct Q as [-> Cx]. pose proof (ex_block_rel x t t' Cx Ht) as R.
+        destruct (ex_block exf x t) as [[o u]|], (ex_block exf (map (rn_stmt r) x) t') as [[o' u']|]; cbn in R; try contradiction; [|exact Logic.I].
+        destruct R as [<- Hu]. destruct o; split; try reflexivity; exact Hu.
+      - destruct ws as [|w rest]; [exact Logic.I|]. destruct (String.eqb w "SCase"); [split; [reflexivity|exact Hs]|].
+        destruct rest; [|exact Logic.I].
         repeat match goal with |- context [if ?c then _ else _] => destruct c end;
           first [exact Logic.I | split; [reflexivity|exact Hs]].
       - cov. pose proof (ev_rel fuel e s s' C Hs) as P.
